@@ -37,7 +37,9 @@ WOps(n) == {Hd(n, "/posts/abc", G, ""), Rm(n, "/posts/abc", <<>>), Hd(n, "/posts
             Hd(n, "/u/{id}/y", G, ""), Rm(n, "/u/{id}/y", <<>>), Hd(n, "/s/f", G, ""), Rm(n, "/s/f", <<>>), Rm(n, "/s/a", <<>>), Hd(n, "/s/a", G, ""),
             Hd(n, "/u/{uid}/x", G, ""), Cl(n, "/s/f"),
             \* regexp rules are compiled at registration time (and by non-strict URL building, which takes no lock)
-            Hd(n, "/r/{id:\\d+}", G, ""), Rm(n, "/r/{id:\\d+}", <<>>), Hd(n, "/r/{w:[a-z]+}x", G, "")}
+            Hd(n, "/r/{id:\\d+}", G, ""), Rm(n, "/r/{id:\\d+}", <<>>), Hd(n, "/r/{w:[a-z]+}x", G, ""),
+            \* method sets nobody in the process has used before (the process-wide method-set memo grows while readers read it)
+            Hd(n, "/posts/abc", <<"PUT">>, ""), Hd(n, "/s/f", <<"DELETE", "PATCH">>, ""), Hd(n, "/u/{id}/y", <<"PUT", "CONNECT">>, "")}
 ROps(n) == {Sv(n, "GET", "/posts/author", "/posts/author", <<>>), Sv(n, "GET", "/posts/abc", "/posts/abc", <<>>), Sv(n, "POST", "/posts/author", "/posts/author", <<>>),
             Sv(n, "OPTIONS", "/posts/author", "/posts/author", <<>>), Sv(n, "GET", "/u/7q/x", "/u/{id}/x", [id |-> "7q"]), Sv(n, "GET", "/u/7q/y", "/u/{id}/y", [id |-> "7q"]),
             Sv(n, "GET", "/s/a", "/s/a", <<>>), Sv(n, "GET", "/s/7q", "/s/{id}", [id |-> "7q"]), Sv(n, "GET", "/s/f", "/s/f", <<>>), Sv(n, "OPTIONS", "*", "", <<>>),
@@ -62,7 +64,8 @@ OpsFor(role) == CASE role.k = "w" -> WOps(role.n)
                   [] role.k = "own" -> WOps(role.n) \cup ROps(role.n)
                   [] role.k = "hosts" -> HOpsC(role.n)
                   [] role.k = "grp" -> {GSv(role.n, "GET", "/x", "a.com"), GSv(role.n, "GET", "/7q", "a.com"), GSv(role.n, "GET", "/v1/x", "zz.com"), GSv(role.n, "GET", "/v1/8w", "zz.com"),
-                                        GSv(role.n, "GET", "/nope", "zz.com"), GSv(role.n, "POST", "/y/z", "b.com")}
+                                        GSv(role.n, "GET", "/nope", "zz.com"), GSv(role.n, "POST", "/y/z", "b.com"),
+                                        GSv(role.n, "GET", "/v2/x", "zz.com"), GSv(role.n, "GET", "/v2/nope", "zz.com"), GSv(role.n, "GET", "/v2/7q/8w", "b.com")}
                   [] role.k = "seq" -> WOps("r1") \cup ROps("r1") \cup ROps("r2") \cup {New("r2"), Hd("r2", "/posts/author", P, "")} \cup {x \in WOps("r3") : x.op = "handle"}
 \* on the quiescent router every goroutine's FIRST request is the same CORS preflight, released together: whatever the request
 \* path initialises lazily is initialised by all of them at once
